@@ -178,7 +178,13 @@ func vpH_c13_steps() {
 	}
 	var doc any
 	noSteps := false
-	switch vpInt(0, 3) {
+	switch vpInt(0, 5) {
+	case 4: // a scalar document
+		doc = vpStrUpTo(2, "a-z")
+		want, noSteps = nil, false
+	case 5: // an empty document
+		doc = nil
+		want, noSteps = nil, false
 	case 0: // bare list
 		if seq == nil {
 			seq = []any{}
@@ -199,6 +205,13 @@ func vpH_c13_steps() {
 	p := new(Pipeline)
 	err := ordered.Unmarshal(doc, p)
 	usable := err == nil || warning.Is(err)
+	if _, isStr := doc.(string); isStr || doc == nil {
+		// neither a mapping nor a list: a hard error, or a usable empty pipeline - never a panic
+		if usable {
+			vpAssert(p.Steps != nil && len(p.Steps) == 0, "a document that is neither mapping nor list gives at most an empty, non-nil step list")
+		}
+		return
+	}
 	if !vpHasHard(want) {
 		vpAssert(usable, "malformed or unrecognised steps never abort the parse")
 	}
